@@ -314,6 +314,10 @@ def bad_share_values(kind, ch, honest):
     if kind == "ffdh":
         p = honest["p"]
         vals = [0, 1, p - 1, p, p + 1, (1 << (p.bit_length() + 8)) + 5]
+        if honest.get("fixed_len"):
+            # TLS 1.3 shares have the length of the prime: an oversize
+            # value cannot be written down
+            vals = vals[:5]
         return vals[ch.draw(len(vals), "s.val")]
     if kind == "ecdh":
         b = bytearray(honest["bytes"])
@@ -327,7 +331,11 @@ def bad_share_values(kind, ch, honest):
             return bytearray([6 + (b[-1] & 1)]) + b[1:]      # hybrid form
         if k == 8:
             return b[1:]                                     # raw x || y
-        if k == 0:
+        if k == 0 and b[0] in (2, 3):
+            # compressed form: another x may well be on the curve, one that
+            # is not smaller than the field prime never is
+            b = bytearray([b[0]]) + bytearray(b"\xff" * (len(b) - 1))
+        elif k == 0:
             b[-1] ^= 1                      # off the curve
         elif k == 1:
             b = b[:-1]                      # wrong length
@@ -452,7 +460,8 @@ def run_share(job, ch, seed, v, viol, probes, ctx):
                     idx = ["ffdhe2048", "ffdhe3072", "ffdhe4096",
                            "ffdhe6144", "ffdhe8192"].index(g)
                     p = RFC7919_GROUPS[idx][1]
-                    nv = bad_share_values("ffdh", ch, {"p": p})
+                    nv = bad_share_values("ffdh", ch, {"p": p,
+                                                        "fixed_len": True})
                     ln = len(sh.key_exchange)
                     nv = nv % (1 << (8 * ln))
                     desc["val"] = hex(nv)[:40]
@@ -474,7 +483,8 @@ def run_share(job, ch, seed, v, viol, probes, ctx):
                     idx = ["ffdhe2048", "ffdhe3072", "ffdhe4096",
                            "ffdhe6144", "ffdhe8192"].index(g)
                     p = RFC7919_GROUPS[idx][1]
-                    nv = bad_share_values("ffdh", ch, {"p": p})
+                    nv = bad_share_values("ffdh", ch, {"p": p,
+                                                        "fixed_len": True})
                     ln = len(sh.key_exchange)
                     nv = nv % (1 << (8 * ln))
                     desc["val"] = hex(nv)[:40]
@@ -496,11 +506,29 @@ def run_share(job, ch, seed, v, viol, probes, ctx):
     peer = pair.s if victim == "c" else pair.c
     vic = pair.c if victim == "c" else pair.s
     byz.Interposer(peer.conn, [rule])
+    vtap = taps.SendTap(vic.conn)
+    vtap.keep_plain = True
     oc, os_, st = pair.handshake()
     vo = oc if victim == "c" else os_
     ctx[0] = "[where=%s group=%s bad=%s scenario=%s]" % (
         where, g, desc.get("val"), json.dumps(sc, sort_keys=True))
     if fired:
+        # the value has to be refused where it is read, not "later, when
+        # something else fails": what the victim sent after it
+        from sim import observe
+        sent = [m[0] for m in observe.split_hs(
+            [r[4] for r in vtap.records if r[0] == 22])]
+        went_on = None
+        if where == "tls13_client" and 2 in sent:
+            went_on = "ServerHello"
+        elif where == "tls13_server" and 20 in sent:
+            went_on = "Finished"
+        elif where == "ske" and 16 in sent:
+            went_on = "ClientKeyExchange"
+        if went_on:
+            v("bad_share_processed", "%s|%s" % (where, gk),
+              "victim answered an invalid peer share with %s instead of "
+              "refusing it" % went_on)
         if vo.kind == "ok":
             v("bad_share_accepted", "%s|%s" % (where, gk),
               "victim completed the handshake with an invalid peer share")
